@@ -1,14 +1,544 @@
-(* htp_request.c: the request-side parser states and htp_connp_req_data. *)
-Require Import Htp.Model.MConnTypes Htp.Model.MTxCommon.
+(* htp_request.c: the request-side parser states and htp_connp_req_data.
+   Shape: the byte macros are functions on the cursor with CHECKED reads (a read outside the caller's
+   chunk, or through a NULL chunk pointer, sets c_fault); every append to in_buf goes through
+   req_buffer; in_status is written in rq_exit (the rc -> stream-state mapping), in
+   REQ_CONNECT_CHECK and REQ_CONNECT_PROBE_DATA only, as in the C. in_stream_offset is not modelled
+   (nothing reads it). *)
+Require Import Htp.Model.MConnTypes Htp.Model.MBstr Htp.Model.MTxCommon Htp.Model.MReqLine Htp.Model.MTxReq.
 Local Open Scope Z_scope.
+
+(* #define HTTP09_MAX_JUNK_LEN 16 in htp_request.c: measured on the compiled library by harness/consts/consts_req.h *)
+Definition rq_HTTP09_MAX_JUNK_LEN : nat := Z.to_nat c_HTTP09_MAX_JUNK_LEN.
+
+(* ---- cursor access ---- *)
+Definition rq_set_in (f : cursor -> cursor) (c : connp) : connp := c <| c_in ::= f |>.
+Definition rq_fault (c : connp) : connp := c <| c_fault := true |>.
+
+(* in_current_data[in_current_read_offset], checked *)
+Definition rq_read_byte (c : connp) : connp * N :=
+  match k_data (c_in c) with
+  | Some d => match nth_error d (k_read (c_in c)) with Some b => (c, b) | None => (rq_fault c, 0%N) end
+  | None => (rq_fault c, 0%N)
+  end.
+(* in_current_data[from .. to), checked; a zero-length slice of a NULL chunk is the empty string *)
+Definition rq_slice (c : connp) (from to : nat) : connp * bytes :=
+  match k_data (c_in c) with
+  | Some d => if (to <=? length d)%nat then (c, firstn (to - from) (skipn from d)) else (rq_fault c, firstn (to - from) (skipn from d))
+  | None => if (to <=? from)%nat then (c, []) else (rq_fault c, [])
+  end.
+
+Definition rq_at_end (c : connp) : bool := (k_len (c_in c) <=? k_read (c_in c))%nat.
+
+(* IN_PEEK_NEXT *)
+Definition rq_peek_next (c : connp) : connp :=
+  if rq_at_end c then rq_set_in (fun k => k <| k_next_byte := None |>) c
+  else let '(c, b) := rq_read_byte c in rq_set_in (fun k => k <| k_next_byte := Some b |>) c.
+(* IN_COPY_BYTE_OR_RETURN: None = the chunk is exhausted (the macro returns HTP_DATA_BUFFER) *)
+Definition rq_copy_byte (c : connp) : option connp :=
+  if rq_at_end c then None
+  else let '(c, b) := rq_read_byte c in
+       Some (rq_set_in (fun k => k <| k_next_byte := Some b |> <| k_read ::= S |>) c).
+(* IN_NEXT_BYTE_OR_RETURN: None = the macro returns HTP_DATA *)
+Definition rq_next_byte (c : connp) : option connp :=
+  if rq_at_end c then None
+  else let '(c, b) := rq_read_byte c in
+       Some (rq_set_in (fun k => k <| k_next_byte := Some b |> <| k_read ::= S |> <| k_consume ::= S |>) c).
+Definition rq_next_is (c : connp) (b : N) : bool :=
+  match k_next_byte (c_in c) with Some x => (x =? b)%N | None => false end.
+
+(* connp->in_tx dereferenced *)
+Definition rq_tx (c : connp) : tx := tx_get c (in_txi c).
+Definition rq_tx_upd (f : tx -> tx) (c : connp) : connp :=
+  match c_in_tx c with Some i => tx_upd c i f | None => rq_fault c end.
 
 Section WithOracle.
 Variable cb : cb_oracle.
 Variable g : cfg.
 
-(* STUB: to be replaced by the transcription of htp_connp_req_data (entry guards, gap dispatch,
-   state loop, rc mapping). data = None means a NULL pointer (gap when len > 0, close when len = 0). *)
+(* ---- buffering ---- *)
+Definition rq_buf_size (c : connp) : nat := match k_buf (c_in c) with Some b => length b | None => O end.
+Definition rq_header_len (c : connp) : nat := match k_header (c_in c) with Some h => length h | None => O end.
+
+(* htp_connp_req_buffer: THE function through which every append to in_buf goes *)
+Definition req_buffer (c : connp) : st * connp :=
+  match k_data (c_in c) with
+  | None => (ST_OK, c)
+  | Some _ =>
+    let len := (k_read (c_in c) - k_consume (c_in c))%nat in
+    if (len =? 0)%nat then (ST_OK, c)
+    else
+      let newlen := (rq_buf_size c + len + rq_header_len c)%nat in
+      let c := match c_in_tx c with Some _ => c | None => rq_fault c end in      (* connp->in_tx->cfg->field_limit_hard *)
+      if (g_field_limit_hard g <? newlen)%nat then (ST_ERROR, c)
+      else
+        let '(c, piece) := rq_slice c (k_consume (c_in c)) (k_read (c_in c)) in
+        let old := match k_buf (c_in c) with Some b => b | None => [] end in
+        (ST_OK, rq_set_in (fun k => k <| k_buf := Some (old ++ piece) |> <| k_consume := k_read k |>) c)
+  end.
+
+(* htp_connp_req_consolidate_data: (rc, connp, the region to process) *)
+Definition req_consolidate_data (c : connp) : st * connp * bytes :=
+  match k_buf (c_in c) with
+  | None => let '(c, d) := rq_slice c (k_consume (c_in c)) (k_read (c_in c)) in (ST_OK, c, d)
+  | Some _ =>
+    match req_buffer c with
+    | (ST_OK, c) => (ST_OK, c, match k_buf (c_in c) with Some b => b | None => [] end)
+    | (rc, c) => (ST_ERROR, c, [])
+    end
+  end.
+
+(* htp_connp_req_clear_buffer *)
+Definition req_clear_buffer (c : connp) : connp :=
+  rq_set_in (fun k => k <| k_consume := k_read k |> <| k_buf := None |>) c.
+
+(* htp_connp_req_receiver_set *)
+Definition req_receiver_set (h : nat) (c : connp) : st * connp :=
+  let '(rc, c) := req_receiver_finalize_clear cb c in
+  (rc, rq_set_in (fun k => k <| k_receiver_hook := Some h |> <| k_receiver := k_read k |>) c).
+
+(* htp_req_handle_state_change *)
+Definition req_handle_state_change (c : connp) : st * connp :=
+  if match c_in_state_previous c with Some s => req_state_eqb s (c_in_state c) | None => false end then (ST_OK, c)
+  else
+    let '(rc, c) :=
+      if req_state_eqb (c_in_state c) REQ_HEADERS then
+        let c := match c_in_tx c with Some _ => c | None => rq_fault c end in
+        let p := t_request_progress (rq_tx c) in
+        if p =? c_HTP_REQUEST_HEADERS then req_receiver_set H_REQUEST_HEADER_DATA c
+        else if p =? c_HTP_REQUEST_TRAILER then req_receiver_set H_REQUEST_TRAILER_DATA c
+        else (ST_OK, c)
+      else (ST_OK, c) in
+    match rc with
+    | ST_OK => (ST_OK, c <| c_in_state_previous := Some (c_in_state c) |>)
+    | _ => (rc, c)
+    end.
+
+(* the method probe shared by REQ_FINALIZE and REQ_CONNECT_PROBE_DATA: (mstart, pos) *)
+Definition rq_probe_method (d : bytes) : nat * nat :=
+  let len := length d in
+  let pos := rq_fwd_while htp_is_space d 0 len in
+  let mstart := pos in
+  let pos := rq_fwd_while (rq_not htp_is_space) d pos len in
+  (mstart, pos).
+
+(* connp->cfg->process_request_header(connp, data, len) on the current transaction *)
+Definition rq_process_header (line : bytes) (c : connp) : connp := rq_tx_upd (htp_process_request_header_generic line) c.
+(* "Parse previous header, if any." *)
+Definition rq_flush_header (c : connp) : connp :=
+  match k_header (c_in c) with
+  | Some h => rq_set_in (fun k => k <| k_header := None |>) (rq_process_header h c)
+  | None => c
+  end.
+
+(* a htp_tx_state_* / body-data function applied to connp->in_tx: they start with `if (tx == NULL) return HTP_ERROR;` *)
+Definition rq_with_tx (f : nat -> connp -> st * connp) (c : connp) : st * connp :=
+  match c_in_tx c with Some i => f i c | None => (ST_ERROR, c) end.
+Definition rq_request_complete (c : connp) : st * connp := rq_with_tx (tx_state_request_complete cb g) c.
+
+(* ---- states ---- *)
+
+(* htp_connp_REQ_IDLE *)
+Definition REQ_IDLE_fn (c : connp) : st * connp :=
+  if rq_at_end c then (ST_DATA, c)
+  else
+    match connp_tx_create g c with
+    | (None, c) => (ST_ERROR, c <| c_in_tx := None |>)
+    | (Some i, c) =>
+      let '(_, c) := tx_state_request_start cb i c in          (* return value ignored *)
+      (ST_OK, c)
+    end.
+
+(* htp_connp_REQ_LINE_complete *)
+Definition REQ_LINE_complete (c : connp) : st * connp :=
+  match req_consolidate_data c with
+  | (ST_OK, c, data) =>
+    match data with
+    | [] => (ST_DATA, req_clear_buffer c)
+    | _ =>
+      if htp_is_line_ignorable (g_personality g) data then
+        (ST_OK, req_clear_buffer (rq_tx_upd (fun t => t <| t_request_ignored_lines ::= S |>) c))
+      else
+        let line := htp_chomp data in
+        let c := rq_tx_upd (fun t => htp_parse_request_line g (t <| t_request_line := Some line |>)) c in
+        match rq_with_tx (tx_state_request_line cb g) c with
+        | (ST_OK, c) => (ST_OK, req_clear_buffer c)
+        | (_, c) => (ST_ERROR, c)
+        end
+    end
+  | (_, c, _) => (ST_ERROR, c)
+  end.
+
+(* htp_connp_REQ_LINE: n bounds the bytes left in the chunk (k_len - k_read) *)
+Fixpoint REQ_LINE_loop (n : nat) (c : connp) : st * connp :=
+  let c := rq_peek_next c in
+  if (c_in_status c =? c_HTP_STREAM_CLOSED) && match k_next_byte (c_in c) with None => true | Some _ => false end
+  then REQ_LINE_complete c
+  else
+    match rq_copy_byte c with
+    | None => (ST_DATA_BUFFER, c)
+    | Some c =>
+      if rq_next_is c LF then REQ_LINE_complete c
+      else match n with
+           | O => (ST_DATA_BUFFER, rq_fault c)                 (* unreachable: n >= bytes left *)
+           | S n' => REQ_LINE_loop n' c
+           end
+    end.
+Definition REQ_LINE_fn (c : connp) : st * connp := REQ_LINE_loop (k_len (c_in c) - k_read (c_in c)) c.
+
+(* htp_connp_REQ_PROTOCOL *)
+Definition rq_to_headers (c : connp) : connp :=
+  rq_tx_upd (fun t => t <| t_request_progress := c_HTP_REQUEST_HEADERS |>) (c <| c_in_state := REQ_HEADERS |>).
+Definition REQ_PROTOCOL_fn (c : connp) : st * connp :=
+  if negb (t_is_protocol_0_9 (rq_tx c)) then (ST_OK, rq_to_headers c)
+  else
+    let k := c_in c in
+    let missing := rq_tx_upd (fun t => t <| t_is_protocol_0_9 := false |>) in
+    if (k_read k + rq_HTTP09_MAX_JUNK_LEN <? k_len k)%nat then (ST_OK, rq_to_headers (missing c))
+    else
+      let '(c, rest) := rq_slice c (k_read k) (k_len k) in
+      if forallb htp_is_space rest then (ST_OK, c <| c_in_state := REQ_FINALIZE |>)
+      else (ST_OK, rq_to_headers (missing c)).
+
+(* one complete header line (LF just copied) inside REQ_HEADERS: Some = return from the state, None = keep looping *)
+Definition rq_header_line (c : connp) : option (st * connp) * connp :=
+  match req_consolidate_data c with
+  | (ST_OK, c, data) =>
+    if htp_is_line_terminator (g_personality g) data false then
+      let c := req_clear_buffer (rq_flush_header c) in
+      (Some (rq_with_tx (tx_state_request_headers cb) c), c)
+    else
+      let data := htp_chomp data in
+      let c :=
+        if htp_is_line_folded data =? 0 then
+          let c := rq_peek_next (rq_flush_header c) in
+          match k_next_byte (c_in c) with
+          | Some b => if negb (htp_is_folding_char b) then rq_process_header data c
+                      else rq_set_in (fun k => k <| k_header := Some data |>) c
+          | None => rq_set_in (fun k => k <| k_header := Some data |>) c
+          end
+        else
+          match k_header (c_in c) with
+          | None =>
+            let c := rq_tx_upd (tx_set_flag c_HTP_INVALID_FOLDING) c in
+            rq_set_in (fun k => k <| k_header := Some (drop_while htp_is_folding_char data) |>) c
+          | Some h =>
+            if Z.of_nat (length h) <? c_HTP_MAX_HEADER_FOLDED
+            then rq_set_in (fun k => k <| k_header := Some (h ++ data) |>) c
+            else c
+          end in
+      (None, req_clear_buffer c)
+  | (_, c, _) => (Some (ST_ERROR, c), c)
+  end.
+
+(* htp_connp_REQ_HEADERS *)
+Fixpoint REQ_HEADERS_loop (n : nat) (c : connp) : st * connp :=
+  if c_in_status c =? c_HTP_STREAM_CLOSED then
+    let c := req_clear_buffer (rq_flush_header c) in
+    let c := rq_tx_upd (fun t => t <| t_request_progress := c_HTP_REQUEST_TRAILER |>) c in
+    rq_with_tx (tx_state_request_headers cb) c
+  else
+    match rq_copy_byte c with
+    | None => (ST_DATA_BUFFER, c)
+    | Some c =>
+      let '(ret, c) := if rq_next_is c LF then rq_header_line c else (None, c) in
+      match ret with
+      | Some r => r
+      | None => match n with
+                | O => (ST_DATA_BUFFER, rq_fault c)            (* unreachable *)
+                | S n' => REQ_HEADERS_loop n' c
+                end
+      end
+    end.
+Definition REQ_HEADERS_fn (c : connp) : st * connp := REQ_HEADERS_loop (k_len (c_in c) - k_read (c_in c)) c.
+
+(* htp_connp_REQ_CONNECT_CHECK *)
+Definition REQ_CONNECT_CHECK_fn (c : connp) : st * connp :=
+  if t_request_method_number (rq_tx c) =? c_HTP_M_CONNECT then
+    (ST_DATA_OTHER, c <| c_in_state := REQ_CONNECT_WAIT_RESPONSE |> <| c_in_status := c_HTP_STREAM_DATA_OTHER |>)
+  else (ST_OK, c <| c_in_state := REQ_BODY_DETERMINE |>).
+
+(* htp_connp_REQ_CONNECT_WAIT_RESPONSE *)
+Definition REQ_CONNECT_WAIT_RESPONSE_fn (c : connp) : st * connp :=
+  let t := rq_tx c in
+  if t_response_progress t <=? c_HTP_RESPONSE_LINE then (ST_DATA_OTHER, c)
+  else if (200 <=? t_response_status_number t) && (t_response_status_number t <=? 299)
+  then (ST_OK, c <| c_in_state := REQ_CONNECT_PROBE_DATA |>)
+  else (ST_OK, c <| c_in_state := REQ_FINALIZE |>).
+
+(* for (;;) { IN_PEEK_NEXT; if (stop(in_next_byte)) break; IN_COPY_BYTE_OR_RETURN; } : true = stopped at a stop byte *)
+Fixpoint rq_peek_copy_until (stop : N -> bool) (n : nat) (c : connp) : bool * connp :=
+  let c := rq_peek_next c in
+  if match k_next_byte (c_in c) with Some b => stop b | None => false end then (true, c)
+  else match rq_copy_byte c with
+       | None => (false, c)
+       | Some c => match n with
+                   | O => (false, rq_fault c)                  (* unreachable *)
+                   | S n' => rq_peek_copy_until stop n' c
+                   end
+       end.
+
+(* htp_connp_REQ_CONNECT_PROBE_DATA *)
+Definition REQ_CONNECT_PROBE_DATA_fn (c : connp) : st * connp :=
+  match rq_peek_copy_until (fun b => (b =? LF)%N || (b =? 0)%N) (k_len (c_in c) - k_read (c_in c)) c with
+  | (false, c) => (ST_DATA_BUFFER, c)
+  | (true, c) =>
+    match req_consolidate_data c with
+    | (ST_OK, c, data) =>
+      let '(mstart, pos) := rq_probe_method data in
+      if negb (htp_convert_method_to_number (rq_sub data mstart pos) =? c_HTP_M_UNKNOWN)
+      then rq_request_complete c
+      else (ST_OK, c <| c_in_status := c_HTP_STREAM_TUNNEL |> <| c_out_status := c_HTP_STREAM_TUNNEL |>)
+    | (_, c, _) => (ST_ERROR, c)
+    end
+  end.
+
+(* htp_connp_REQ_BODY_DETERMINE *)
+Definition REQ_BODY_DETERMINE_fn (c : connp) : st * connp :=
+  let t := rq_tx c in
+  if t_request_transfer_coding t =? c_HTP_CODING_CHUNKED then
+    (ST_OK, rq_tx_upd (fun t => t <| t_request_progress := c_HTP_REQUEST_BODY |>) (c <| c_in_state := REQ_BODY_CHUNKED_LENGTH |>))
+  else if t_request_transfer_coding t =? c_HTP_CODING_IDENTITY then
+    let c := c <| c_in_content_length := t_request_content_length t |> <| c_in_body_data_left := t_request_content_length t |> in
+    if negb (c_in_content_length c =? 0)
+    then (ST_OK, rq_tx_upd (fun t => t <| t_request_progress := c_HTP_REQUEST_BODY |>) (c <| c_in_state := REQ_BODY_IDENTITY |>))
+    else (ST_OK, c <| c_in_state := REQ_FINALIZE |>)
+  else if t_request_transfer_coding t =? c_HTP_CODING_NO_BODY then (ST_OK, c <| c_in_state := REQ_FINALIZE |>)
+  else (ST_ERROR, c).
+
+(* the common part of REQ_BODY_IDENTITY / REQ_BODY_CHUNKED_DATA: min(bytes available, bytes wanted) as size_t;
+   `wanted` is an int64_t converted to size_t by the comparison, so a negative value is a huge one *)
+Definition rq_bytes_to_consume (c : connp) (wanted : Z) : nat :=
+  let avail := (k_len (c_in c) - k_read (c_in c))%nat in
+  if (wanted <? 0) || (Z.of_nat avail <? wanted) then avail else Z.to_nat wanted.
+(* htp_tx_req_process_body_data_ex(in_tx, in_current_data + in_current_read_offset, n), then "Adjust counters." *)
+Definition rq_consume_body (n : nat) (c : connp) : st * connp :=
+  let k := c_in c in
+  let '(c, data) := match k_data k with
+                    | Some _ => let '(c, d) := rq_slice c (k_read k) (k_read k + n) in (c, Some d)
+                    | None => (if (k_read k =? 0)%nat then c else rq_fault c, None)       (* NULL + offset *)
+                    end in
+  match rq_with_tx (fun i => tx_req_process_body_data_ex cb i data n) c with
+  | (ST_OK, c) =>
+    let c := rq_set_in (fun k => k <| k_read ::= Nat.add n |> <| k_consume ::= Nat.add n |>) c in
+    (ST_OK, rq_tx_upd (fun t => t <| t_request_message_len ::= Z.add (Z.of_nat n) |>) c)
+  | r => r
+  end.
+
+(* htp_connp_REQ_BODY_IDENTITY *)
+Definition REQ_BODY_IDENTITY_fn (c : connp) : st * connp :=
+  let n := rq_bytes_to_consume c (c_in_body_data_left c) in
+  if (n =? 0)%nat then (ST_DATA, c)
+  else
+    match rq_consume_body n c with
+    | (ST_OK, c) =>
+      let c := c <| c_in_body_data_left ::= (fun l => l - Z.of_nat n) |> in
+      if c_in_body_data_left c =? 0 then (ST_OK, c <| c_in_state := REQ_FINALIZE |>) else (ST_DATA, c)
+    | r => r
+    end.
+
+(* htp_connp_REQ_BODY_CHUNKED_DATA *)
+Definition REQ_BODY_CHUNKED_DATA_fn (c : connp) : st * connp :=
+  let n := rq_bytes_to_consume c (c_in_chunked_length c) in
+  if (n =? 0)%nat then (ST_DATA, c)
+  else
+    match rq_consume_body n c with
+    | (ST_OK, c) =>
+      let c := c <| c_in_chunked_length ::= (fun l => l - Z.of_nat n) |> in
+      if c_in_chunked_length c =? 0 then (ST_OK, c <| c_in_state := REQ_BODY_CHUNKED_DATA_END |>) else (ST_DATA, c)
+    | r => r
+    end.
+
+(* htp_connp_REQ_BODY_CHUNKED_DATA_END *)
+Fixpoint REQ_BODY_CHUNKED_DATA_END_loop (n : nat) (c : connp) : st * connp :=
+  match rq_next_byte c with
+  | None => (ST_DATA, c)
+  | Some c =>
+    let c := rq_tx_upd (fun t => t <| t_request_message_len ::= Z.add 1 |>) c in
+    if rq_next_is c LF then (ST_OK, c <| c_in_state := REQ_BODY_CHUNKED_LENGTH |>)
+    else match n with
+         | O => (ST_DATA, rq_fault c)                          (* unreachable *)
+         | S n' => REQ_BODY_CHUNKED_DATA_END_loop n' c
+         end
+  end.
+Definition REQ_BODY_CHUNKED_DATA_END_fn (c : connp) : st * connp :=
+  REQ_BODY_CHUNKED_DATA_END_loop (k_len (c_in c) - k_read (c_in c)) c.
+
+(* htp_connp_REQ_BODY_CHUNKED_LENGTH *)
+Fixpoint REQ_BODY_CHUNKED_LENGTH_loop (n : nat) (c : connp) : st * connp :=
+  match rq_copy_byte c with
+  | None => (ST_DATA_BUFFER, c)
+  | Some c =>
+    if rq_next_is c LF then
+      match req_consolidate_data c with
+      | (ST_OK, c, data) =>
+        let c := rq_tx_upd (fun t => t <| t_request_message_len ::= Z.add (Z.of_nat (length data)) |>) c in
+        let '(v, _) := parse_chunked_length (htp_chomp data) in
+        let c := req_clear_buffer (c <| c_in_chunked_length := v |>) in
+        if 0 <? v then (ST_OK, c <| c_in_state := REQ_BODY_CHUNKED_DATA |>)
+        else if v =? 0 then
+          (ST_OK, rq_tx_upd (fun t => t <| t_request_progress := c_HTP_REQUEST_TRAILER |>) (c <| c_in_state := REQ_HEADERS |>))
+        else (ST_ERROR, c)
+      | (_, c, _) => (ST_ERROR, c)
+      end
+    else match n with
+         | O => (ST_DATA_BUFFER, rq_fault c)                   (* unreachable *)
+         | S n' => REQ_BODY_CHUNKED_LENGTH_loop n' c
+         end
+  end.
+Definition REQ_BODY_CHUNKED_LENGTH_fn (c : connp) : st * connp :=
+  REQ_BODY_CHUNKED_LENGTH_loop (k_len (c_in c) - k_read (c_in c)) c.
+
+(* htp_connp_REQ_FINALIZE *)
+Inductive rq_fin_scan := RF_complete (c : connp) | RF_buffer (c : connp) | RF_probe (c : connp).
+Definition rq_finalize_scan (c : connp) : rq_fin_scan :=
+  if c_in_status c =? c_HTP_STREAM_CLOSED then RF_probe c
+  else
+    let c := rq_peek_next c in
+    match k_next_byte (c_in c) with
+    | None => RF_complete c
+    | Some b =>
+      if negb (b =? LF)%N || (k_read (c_in c) <=? k_consume (c_in c))%nat then
+        match rq_peek_copy_until (fun b => (b =? LF)%N) (k_len (c_in c) - k_read (c_in c)) c with
+        | (true, c) => RF_probe c
+        | (false, c) => RF_buffer c
+        end
+      else RF_probe c
+    end.
+Definition REQ_FINALIZE_fn (c : connp) : st * connp :=
+  match rq_finalize_scan c with
+  | RF_complete c => rq_request_complete c
+  | RF_buffer c => (ST_DATA_BUFFER, c)
+  | RF_probe c =>
+    match req_consolidate_data c with
+    | (ST_OK, c, data) =>
+      match data with
+      | [] => rq_request_complete c
+      | _ =>
+        let '(mstart, pos) := rq_probe_method data in
+        let known := (mstart <? pos)%nat && negb (htp_convert_method_to_number (rq_sub data mstart pos) =? c_HTP_M_UNKNOWN) in
+        if known then rq_request_complete (c <| c_in_body_data_left := -1 |>)
+        else
+          let c := if (mstart <? pos)%nat && (0 <? c_in_body_data_left c) then c <| c_in_body_data_left := 1 |> else c in
+          (* "Adds linefeed to the buffer if there was one" *)
+          let after_lf :=
+            if rq_next_is c LF then
+              match rq_copy_byte c with
+              | None => None                                   (* IN_COPY_BYTE_OR_RETURN returns HTP_DATA_BUFFER *)
+              | Some c => Some (match req_consolidate_data c with       (* return value ignored *)
+                                | (ST_OK, c, d2) => (c, d2)
+                                | (_, c, _) => (c, data)
+                                end)
+              end
+            else Some (c, data) in
+          match after_lf with
+          | None => (ST_DATA_BUFFER, c)
+          | Some (c, data) =>
+            let '(rc, c) := rq_with_tx (fun i => tx_req_process_body_data_ex cb i (Some data) 0) c in
+            (rc, req_clear_buffer c)
+          end
+      end
+    | (_, c, _) => (ST_ERROR, c)
+    end
+  end.
+
+(* htp_connp_REQ_IGNORE_DATA_AFTER_HTTP_0_9 *)
+Definition REQ_IGNORE_DATA_AFTER_HTTP_0_9_fn (c : connp) : st * connp :=
+  let left := (k_len (c_in c) - k_read (c_in c))%nat in
+  let c := if (0 <? left)%nat then c <| c_conn_flags ::= (fun f => flag_set f c_HTP_CONN_HTTP_0_9_EXTRA) |> else c in
+  (ST_DATA, rq_set_in (fun k => k <| k_read ::= Nat.add left |> <| k_consume ::= Nat.add left |>) c).
+
+(* connp->in_state(connp) *)
+Definition rq_state_fn (s : req_state) (c : connp) : st * connp :=
+  match s with
+  | REQ_IDLE => REQ_IDLE_fn c
+  | REQ_LINE => REQ_LINE_fn c
+  | REQ_PROTOCOL => REQ_PROTOCOL_fn c
+  | REQ_HEADERS => REQ_HEADERS_fn c
+  | REQ_CONNECT_CHECK => REQ_CONNECT_CHECK_fn c
+  | REQ_CONNECT_WAIT_RESPONSE => REQ_CONNECT_WAIT_RESPONSE_fn c
+  | REQ_CONNECT_PROBE_DATA => REQ_CONNECT_PROBE_DATA_fn c
+  | REQ_BODY_DETERMINE => REQ_BODY_DETERMINE_fn c
+  | REQ_BODY_IDENTITY => REQ_BODY_IDENTITY_fn c
+  | REQ_BODY_CHUNKED_LENGTH => REQ_BODY_CHUNKED_LENGTH_fn c
+  | REQ_BODY_CHUNKED_DATA => REQ_BODY_CHUNKED_DATA_fn c
+  | REQ_BODY_CHUNKED_DATA_END => REQ_BODY_CHUNKED_DATA_END_fn c
+  | REQ_FINALIZE => REQ_FINALIZE_fn c
+  | REQ_IGNORE_DATA_AFTER_HTTP_0_9 => REQ_IGNORE_DATA_AFTER_HTTP_0_9_fn c
+  end.
+
+(* ---- htp_connp_req_data ---- *)
+
+(* the tail of the for(;;) body for rc != HTP_OK: THE place where in_status is written on the way out *)
+Definition rq_exit (rc : st) (c : connp) : connp * Z :=
+  match rc with
+  | ST_DATA | ST_DATA_BUFFER =>
+    let '(_, c) := req_receiver_send_data cb false c in        (* return value ignored *)
+    let '(brc, c) := match rc with ST_DATA_BUFFER => req_buffer c | _ => (ST_OK, c) end in
+    match brc with
+    | ST_OK => (c <| c_in_status := c_HTP_STREAM_DATA |>, c_HTP_STREAM_DATA)
+    | _ => (c <| c_in_status := c_HTP_STREAM_ERROR |>, c_HTP_STREAM_ERROR)
+    end
+  | ST_DATA_OTHER =>
+    if rq_at_end c then (c <| c_in_status := c_HTP_STREAM_DATA |>, c_HTP_STREAM_DATA)
+    else (c <| c_in_status := c_HTP_STREAM_DATA_OTHER |>, c_HTP_STREAM_DATA_OTHER)
+  | ST_STOP => (c <| c_in_status := c_HTP_STREAM_STOP |>, c_HTP_STREAM_STOP)
+  | _ => (c <| c_in_status := c_HTP_STREAM_ERROR |>, c_HTP_STREAM_ERROR)
+  end.
+
+(* one pass of the for(;;) body: inl = return from htp_connp_req_data, inr = go round again *)
+Definition rq_iter (gap : bool) (c : connp) : (connp * Z) + connp :=
+  let s := c_in_state c in
+  let dispatch : option (st * connp) :=
+    if gap then
+      if req_state_eqb s REQ_BODY_IDENTITY || req_state_eqb s REQ_IGNORE_DATA_AFTER_HTTP_0_9 then Some (rq_state_fn s c)
+      else if req_state_eqb s REQ_FINALIZE then Some (rq_request_complete c)
+      else None                                                (* "Gaps are not allowed during this state" *)
+    else Some (rq_state_fn s c) in
+  match dispatch with
+  | None => inl (c, c_HTP_STREAM_CLOSED)
+  | Some (ST_OK, c) =>
+    if c_in_status c =? c_HTP_STREAM_TUNNEL then inl (c, c_HTP_STREAM_TUNNEL)
+    else match req_handle_state_change c with
+         | (ST_OK, c) => inr c
+         | (rc, c) => inl (rq_exit rc c)
+         end
+  | Some (rc, c) => inl (rq_exit rc c)
+  end.
+
+(* the for(;;): explicit fuel; running out is a distinct outcome (fault + ERROR) *)
+Fixpoint rq_loop (fuel : nat) (gap : bool) (c : connp) : connp * Z :=
+  match fuel with
+  | O => (rq_fault c <| c_in_status := c_HTP_STREAM_ERROR |>, c_HTP_STREAM_ERROR)
+  | S f => match rq_iter gap c with
+           | inl r => r
+           | inr c => rq_loop f gap c
+           end
+  end.
+
+(* Fuel. Every pass either returns, or advances in_current_read_offset, or moves along a chain of states that
+   read nothing: IDLE -> LINE, PROTOCOL -> HEADERS|FINALIZE, CONNECT_CHECK -> BODY_DETERMINE -> body state|FINALIZE,
+   WAIT_RESPONSE -> PROBE|FINALIZE, FINALIZE -> IDLE. A complete cycle IDLE..IDLE is at most 8 passes and reads at
+   least 3 bytes (a request line of >= 2 bytes, a header terminator), so 4 * len + 64 covers every history in which
+   REQ_IDLE leaves the IDLE state. It does NOT leave it when the REQUEST_START callback answers anything but OK:
+   htp_connp_REQ_IDLE ignores the return value of htp_tx_state_request_start, in_state stays REQ_IDLE and the next
+   pass creates another transaction without reading a byte. With max_tx > 0 that stops after max_tx + 1 creations
+   (htp_connp_tx_create fails, ERROR), hence the 2 * max_tx + 4 term; with max_tx = 0 (unlimited) the real loop runs
+   for as long as the callback keeps refusing -- the model's out-of-fuel outcome stands for that (a finding). *)
+Definition rq_fuel (len : nat) : nat := (4 * len + 64 + 2 * g_max_tx g + 4)%nat.
+
 Definition connp_req_data (data : option bytes) (len : nat) (c : connp) : connp * Z :=
-  match cb 0%nat 0%nat with CB_OK => if Nat.eqb (g_max_tx g) 0 then (c, c_HTP_STREAM_ERROR) else (c, c_HTP_STREAM_ERROR) | _ => (c, c_HTP_STREAM_ERROR) end.
+  if c_in_status c =? c_HTP_STREAM_STOP then (c, c_HTP_STREAM_STOP)
+  else if c_in_status c =? c_HTP_STREAM_ERROR then (c, c_HTP_STREAM_ERROR)
+  else if match c_in_tx c with None => negb (req_state_eqb (c_in_state c) REQ_IDLE) | Some _ => false end
+  then (c <| c_in_status := c_HTP_STREAM_ERROR |>, c_HTP_STREAM_ERROR)
+  else if (len =? 0)%nat && negb (c_in_status c =? c_HTP_STREAM_CLOSED) then (c, c_HTP_STREAM_CLOSED)
+  else
+    let c := rq_set_in (fun k => k <| k_data := data |> <| k_len := len |> <| k_read := O |> <| k_consume := O |>
+                                   <| k_receiver := O |>) c in
+    let c := c <| c_in_chunk_count ::= S |> <| c_in_data_counter ::= Z.add (Z.of_nat len) |> in
+    if c_in_status c =? c_HTP_STREAM_TUNNEL then (c, c_HTP_STREAM_TUNNEL)
+    else
+      let c := if c_out_status c =? c_HTP_STREAM_DATA_OTHER then c <| c_out_status := c_HTP_STREAM_DATA |> else c in
+      rq_loop (rq_fuel len) (match data with None => (0 <? len)%nat | Some _ => false end) c.
 
 End WithOracle.
